@@ -3,7 +3,8 @@
 From Coq Require Import Extraction ExtrOcamlBasic.
 From PM Require Import Model.Prelude Model.Domain Model.Constraint Model.BindAll Model.Scheme
   Model.BindMaps Model.DomTable Model.DomString Model.DomMatrix Model.Toposort Model.Automaton Model.Traversal Model.Matchers
-  Cert.LabCheck Cert.WfCheck Cert.WinCheck Cert.CharCert Spec.Occ.
+  Cert.LabCheck Cert.WfCheck Cert.WinCheck Cert.CharCert Spec.Occ
+  Model.CTree Model.DomPGKeys Model.CTreeChar.
 
 Extraction Language OCaml.
 Set Extraction KeepSingleton.
@@ -19,5 +20,7 @@ Extraction "model.ml"
   (* engine *) run single match_exists naive
   (* certificates *) wf_check compute_rank lab_ok compute_lab cert_complete char_entails char_refutes
      atoms_self s_goodb m_goodb
+  (* trees *) with_children with_pairwise_mutex with_transitive_mutex with_powerset char_tree pg_tree
+     pg_conditioned_res pgc_eqb mkey_cmp
   (* specification *) occ_stringb occ_matrixb all_cells_from
   (* domains *) table_dom t_reqf string_dom matrix_dom s_cvec m_cvec.
